@@ -4,4 +4,4 @@ S="$1"; P=${S%-*}; D=/tmp/seed/$P/out/$S
 [ -f "$D/patch.diff" ] || { echo "$S: no patch.diff"; exit 1; }
 bash /verif/tools/confirm_seed.sh "$D" /tmp/seed/$P/wt > /dev/null 2>&1
 echo "$S confirm: $(cat $D/confirm.txt)"
-/tmp/first_run.sh $S | tee $D/first_run.txt
+/verif/tools/first_run.sh $S | tee $D/first_run.txt
